@@ -11,10 +11,18 @@ use std::ops;
 use std::ops::Deref;
 use std::sync::Arc;
 
-#[derive(Debug, PartialEq, Clone)]
+#[derive(Debug, Clone)]
 #[cfg_attr(feature = "arbitrary", derive(arbitrary::Arbitrary))]
 pub struct Map {
     pub map: Arc<HashMap<Key, Value>>,
+}
+
+impl PartialEq for Map {
+    fn eq(&self, other: &Self) -> bool {
+        // Not `self.map == other.map`: `Arc`'s equality answers true for one and the same
+        // allocation without looking inside, but a map holding NaN is not equal to itself.
+        *self.map == *other.map
+    }
 }
 
 impl PartialOrd for Map {
@@ -306,7 +314,8 @@ impl PartialEq for Value {
     fn eq(&self, other: &Self) -> bool {
         match (self, other) {
             (Value::Map(a), Value::Map(b)) => a == b,
-            (Value::List(a), Value::List(b)) => a == b,
+            // Element by element (see `PartialEq for Map` about `Arc`'s equality).
+            (Value::List(a), Value::List(b)) => **a == **b,
             (Value::Function(a1, a2), Value::Function(b1, b2)) => a1 == b1 && a2 == b2,
             (Value::Int(a), Value::Int(b)) => a == b,
             (Value::UInt(a), Value::UInt(b)) => a == b,
